@@ -3,15 +3,11 @@
    (b) evaluates the property itself (penalty exact / 0 iff feasible, >= multiplier otherwise)
    on the implementation's own coefficients by enumerating all assignments inside Coq. *)
 From Coq Require Import List ZArith QArith Qcanon Bool Arith.
-From Dimod Require Import Base.Util Model.Poly Model.Comb Model.Penalty.
+From Dimod Require Import Base.Util Model.Poly Model.Comb Model.Penalty Model.CqmBqm.
 Import ListNotations.
 Open Scope Qc_scope.
 
-Definition zq (z : Z) : Qc := qc z 1.
 Definition qterms (l : list (label * Z)) : list lterm := map (fun t => (fst t, zq (snd t))) l.
-Definition Qc_leb (a b : Qc) : bool := Qle_bool a b.
-Definition is_int (q : Qc) : bool := Pos.eqb (Qden (this q)) 1.
-Definition qz (q : Qc) : Z := Qnum (this q).
 
 (* all samples giving each label one value of dom *)
 Fixpoint assigns (dom : list Qc) (labels : list label) : list (list (label * Qc)) :=
@@ -60,25 +56,43 @@ Record ineq_case := mkIneq {
   i_vt : vartype;
   i_terms : list (label * Z);
   i_lam : Qc; i_const : Z; i_lb : Z; i_ub : Z;
+  i_cz : bool;              (* cross_zero *)
+  i_unb : option Qc;        (* penalization_method='unbalanced': lagrange_multiplier = (i_lam, this) *)
+  i_py : bool;              (* python fallback (object dtype) *)
   i_out : outcome;
   i_before : obs; i_after : obs }.
 
 Definition fresh_labels (nx : nat) (ls : list label) : bool :=
   forallb (fun v => (nx <=? v)%nat) ls && list_eqb Nat.eqb ls (seq nx (length ls)).
 
+Definition ubc_of (a : list Z) (const ub : Z) : Z := Z.min (sum_pos a) (ub - const).
+
 Definition ineq_model_ok (c : ineq_case) : bool :=
   let before := obs_poly (i_before c) in
   let after := obs_poly (i_after c) in
   let a := map snd (i_terms c) in
-  match plan_inequality a (i_const c) (i_lb c) (i_ub c), i_out c with
-  | Skip, OReturned [] => poly_coeff_eqb (i_n c) before after
-  | Infeasible, ORaised => poly_coeff_eqb (i_n c) before after
-  | Equality ubc, OReturned [] =>
-      poly_coeff_eqb (i_n c) (add_eq_cy (i_vt c) (qterms (i_terms c)) (i_lam c) (zq (- ubc)) before) after
-  | Slack ubc cs, OReturned sl =>
-      list_eqb Z.eqb (map snd sl) cs && fresh_labels (i_nx c) (map fst sl)
-      && poly_coeff_eqb (i_n c) (add_eq_cy (i_vt c) (qterms (i_terms c ++ sl)) (i_lam c) (zq (- ubc)) before) after
-  | _, _ => false
+  let add_eq := if i_py c then add_eq_py else add_eq_cy in
+  match i_unb c with
+  | Some lam1 =>
+      match plan_inequality a (i_const c) (i_lb c) (i_ub c), i_out c with
+      | Skip, OReturned [] => poly_coeff_eqb (i_n c) before after
+      | Infeasible, ORaised => poly_coeff_eqb (i_n c) before after
+      | Equality ubc, OReturned [] | Slack ubc _, OReturned [] =>
+          poly_coeff_eqb (i_n c)
+            (add_unbalanced (i_py c) (i_vt c) (qterms (i_terms c)) (i_lam c) lam1 (zq ubc) before) after
+      | _, _ => false
+      end
+  | None =>
+      match plan_inequality_cz (i_cz c) a (i_const c) (i_lb c) (i_ub c), i_out c with
+      | Skip, OReturned [] => poly_coeff_eqb (i_n c) before after
+      | Infeasible, ORaised => poly_coeff_eqb (i_n c) before after
+      | Equality ubc, OReturned [] =>
+          poly_coeff_eqb (i_n c) (add_eq (i_vt c) (qterms (i_terms c)) (i_lam c) (zq (- ubc)) before) after
+      | Slack ubc cs, OReturned sl =>
+          list_eqb Z.eqb (map snd sl) cs && fresh_labels (i_nx c) (map fst sl)
+          && poly_coeff_eqb (i_n c) (add_eq (i_vt c) (qterms (i_terms c ++ sl)) (i_lam c) (zq (- ubc)) before) after
+      | _, _ => false
+      end
   end.
 
 Definition feasible_q (A : Qc) (const lb ub : Z) : bool :=
@@ -95,16 +109,35 @@ Definition min_increase (before after : poly) (x : list (label * Qc)) (slack_ass
 Definition gap_ok (feas : bool) (m lam : Qc) : bool :=
   if feas then Qc_eqb m 0 else Qc_leb lam m.
 
+(* what the added objective admits: the constraint itself, and with cross_zero and lb_c > 0 also 0 <= sum <= ub_c - lb_c *)
+Definition allowed_q (c : ineq_case) (A : Qc) : bool :=
+  let a := map snd (i_terms c) in
+  let lbc := lbc_of a (i_const c) (i_lb c) in
+  let ubc := ubc_of a (i_const c) (i_ub c) in
+  feasible_q A (i_const c) (i_lb c) (i_ub c)
+  || (i_cz c && (0 <? lbc)%Z && (0 <? ubc - lbc)%Z    (* only the slack branch adds the extra bit *)
+      && Qc_leb 0 A && Qc_leb A (zq (ubc - lbc))).
+
 Definition ineq_oracle_ok (c : ineq_case) : bool :=
   let before := obs_poly (i_before c) in
   let after := obs_poly (i_after c) in
+  let a := map snd (i_terms c) in
   let xs := assigns (dom_of (i_vt c)) (labels_upto (i_nx c)) in
   match i_out c with
   | ORaised => forallb (fun x => negb (feasible_q (zdot (i_terms c) x) (i_const c) (i_lb c) (i_ub c))) xs
   | OReturned sl =>
-      let sas := assigns (dom_of (i_vt c)) (map fst sl) in
-      forallb (fun x => gap_ok (feasible_q (zdot (i_terms c) x) (i_const c) (i_lb c) (i_ub c))
-                               (min_increase before after x sas) (i_lam c)) xs
+      match i_unb c, plan_inequality a (i_const c) (i_lb c) (i_ub c) with
+      | Some lam1, Equality _ | Some lam1, Slack _ _ =>
+          (* exactly lam0 * A - ub_c + lam1 * (A - ub_c)^2 *)
+          let ubc := zq (ubc_of a (i_const c) (i_ub c)) in
+          forallb (fun x => let s := sample_of_list x in let A := zdot (i_terms c) x in
+                            Qc_eqb (energy after s)
+                                   (energy before s + i_lam c * A - ubc + lam1 * ((A - ubc) * (A - ubc)))) xs
+      | _, _ =>
+          let sas := assigns (dom_of (i_vt c)) (map fst sl) in
+          forallb (fun x => gap_ok (allowed_q c (zdot (i_terms c) x))
+                                   (min_increase before after x sas) (i_lam c)) xs
+      end
   end.
 
 Definition check_ineq (c : ineq_case) : bool := ineq_model_ok c && ineq_oracle_ok c.
@@ -200,8 +233,6 @@ Definition check_enc (c : enc_case) : bool :=
 (* ------------------------------------------------------------------ *)
 (* cqm_to_bqm *)
 
-Inductive sense := SLe | SGe | SEq.
-
 Record cqm_case := mkCqm {
   q_n : nat;                                   (* BQM labels *)
   q_vars : list (label * cvar);                (* CQM label -> kind *)
@@ -215,42 +246,31 @@ Record cqm_case := mkCqm {
   q_rows : list (list (label * Qc) * Qc);      (* CQM assignment, min of the BQM energy over its preimages *)
   q_inv : list (list (label * Qc) * list (label * Qc)) }.  (* BQM sample, inverter output *)
 
-Definition int64_max : Z := 9223372036854775807%Z.
-Definition int64_min : Z := (- 9223372036854775808)%Z.
-
-Record conv_state := mkSt { st_poly : poly; st_slack : list (list label); st_ok : bool; st_raised : bool }.
-
-Definition conv_step (E : encoding) (lam : Qc) (st : conv_state) (con : obs * sense * Qc) : conv_state :=
-  let '(lhs, sn, rhs) := con in
-  if st_raised st then st else
-  let lb := encode_poly E (obs_poly lhs) in
-  let terms := merge_terms (p_lin lb) in
-  let const := p_off lb in
-  let ints := forallb (fun t => is_int (snd t)) terms && is_int const && is_int rhs in
-  let zt := map (fun t => (fst t, qz (snd t))) terms in
-  let a := map snd zt in
-  let lin_ok := forallb (fun t => Qc_eqb (snd t) 0) (p_quad lb) in
-  match sn with
-  | SEq => mkSt (add_eq_cy BINARY terms lam (const - rhs) (st_poly st)) (st_slack st) (st_ok st && lin_ok) false
-  | _ =>
-    let plan := match sn with
-                | SGe => plan_inequality a (qz const) (qz rhs) int64_max
-                | _ => plan_inequality a (qz const) int64_min (qz rhs)
-                end in
-    match plan with
-    | Skip => mkSt (st_poly st) (st_slack st) (st_ok st && ints && lin_ok) false
-    | Infeasible => mkSt (st_poly st) (st_slack st) (st_ok st && ints && lin_ok) true
-    | Equality ubc =>
-        mkSt (add_eq_cy BINARY terms lam (zq (- ubc)) (st_poly st)) (st_slack st) (st_ok st && ints && lin_ok) false
-    | Slack ubc cs =>
-        match st_slack st with
-        | g :: gr =>
-            mkSt (add_eq_cy BINARY (terms ++ combine g (map zq cs)) lam (zq (- ubc)) (st_poly st)) gr
-                 (st_ok st && ints && lin_ok && (length g =? length cs)%nat) false
-        | [] => mkSt (st_poly st) [] false false
-        end
-    end
+(* the slack groups reported by the BQM are handed out, in order, to the constraints whose plan needs slack *)
+Fixpoint distribute (E : encoding) (cons : list (obs * sense * Qc)) (groups : list (list label))
+  : list ccon * list (list label) :=
+  match cons with
+  | [] => ([], groups)
+  | (lhs, sn, rhs) :: r =>
+      let k0 := mkCcon (obs_poly lhs) sn rhs [] in
+      let needs := match sn with
+                   | SEq => false
+                   | _ => match con_plan E k0 with Slack _ _ => true | _ => false end
+                   end in
+      match needs, groups with
+      | true, g :: gr => let res := distribute E r gr in (mkCcon (obs_poly lhs) sn rhs g :: fst res, snd res)
+      | _, _ => let res := distribute E r groups in (k0 :: fst res, snd res)
+      end
   end.
+
+Fixpoint nodupb (l : list label) : bool :=
+  match l with [] => true | x :: r => negb (existsb (Nat.eqb x) r) && nodupb r end.
+
+(* slack labels pairwise distinct and disjoint from the labels the encoding uses *)
+Definition separated_b (vars : list (label * cvar)) (E : encoding) (ks : list ccon) : bool :=
+  let sl := slack_labels ks in
+  nodupb sl
+  && forallb (fun vk => forallb (fun t => negb (existsb (Nat.eqb (fst t)) sl)) (p_lin (E (fst vk)))) vars.
 
 Definition enc_ok (vars : list (label * cvar)) (E : encoding) : bool :=
   forallb (fun vk => match snd vk with
@@ -288,13 +308,15 @@ Definition inv_ok (E : encoding) (vars : list (label * cvar)) (r : list (label *
 
 Definition check_cqm (c : cqm_case) : bool :=
   let E := enc_of (q_enc c) in
-  let st0 := mkSt (encode_poly E (obs_poly (q_obj c))) (q_slack c) true false in
-  let st := fold_left (conv_step E (q_lam c)) (q_cons c) st0 in
+  let dist := distribute E (q_cons c) (q_slack c) in
+  let ks := fst dist in
   enc_ok (q_vars c) E
-  && Bool.eqb (st_raised st) (q_raised c)
+  && Bool.eqb (cqm_raises E ks) (q_raised c)
   && (if q_raised c then true   (* no BQM, hence no slack labels, to compare with *)
-      else st_ok st && poly_coeff_eqb (q_n c) (st_poly st) (obs_poly (q_bqm c))
-           && match st_slack st with [] => true | _ => false end
+      else forallb (con_wf E) ks
+           && match snd dist with [] => true | _ => false end
+           && separated_b (q_vars c) E ks
+           && poly_coeff_eqb (q_n c) (cqm_bqm E (q_lam c) (obs_poly (q_obj c)) ks) (obs_poly (q_bqm c))
            && (length (q_rows c) =? fold_right Nat.mul 1 (map (fun vk => dom_size (snd vk)) (q_vars c)))%nat
            && forallb (row_ok c) (q_rows c)
            && forallb (inv_ok E (q_vars c)) (q_inv c)).
